@@ -126,3 +126,31 @@ def pair_probe(job):
     a2 = b2 - d
     out.update(rb2=ms_of(b2) - base_ms, ra2=ms_of(a2) - base_ms, eq2=(b2 == b) and (a2 == a), lt2=a < b2)
     return out
+
+
+def ts_probe(job):
+    """one history of str() / += / -= on a real timestamp object (spec/TsObject.tla): what it shows at the end"""
+    warnings.filterwarnings("ignore")
+    from cpppo.history import timestamp
+    base, j = job
+
+    def ms_of(ts):
+        s = str(ts)
+        hh, mm, rest = s.split(" ")[1].split(":")
+        return (int(hh) * 3600 + int(mm) * 60) * 1000 + int(rest.replace(".", ""))
+    base_ms = ms_of(timestamp(base))
+    orig = timestamp(base + j["start"] / 1e6)
+    ts = timestamp(base + j["start"] / 1e6)
+    try:
+        for op, d in j["h"]:
+            if op == "str":
+                str(ts)
+            elif op == "iadd":
+                ts += d / 1e6
+            else:
+                ts -= d / 1e6
+        fresh = timestamp(base + j["u"] / 1e6)
+        return {"shown": ms_of(ts) - base_ms, "utc": ts.utc, "fresh": ms_of(fresh) - base_ms, "eq": ts == fresh, "lt0": ts < orig, "gt0": ts > orig,
+                "orig": ms_of(orig) - base_ms, "exc": ""}
+    except Exception as exc:
+        return {"shown": -1, "utc": "", "fresh": -1, "eq": False, "lt0": False, "gt0": False, "orig": -1, "exc": repr(exc)}
